@@ -216,7 +216,7 @@ Lemma wf_adj_init init last : wf_adj (init ++ [last]) = true -> wf_adj init = tr
 Proof.
   induction init as [|it r IH]; [reflexivity|]. cbn [app wf_adj]. intros H.
   apply andb_true_iff in H as [H1 H2]. rewrite (IH H2), andb_true_r.
-  destruct r as [|it' r']; [destruct (eats_indent it); reflexivity | exact H1].
+  destruct r as [|it' r']; [reflexivity | exact H1].
 Qed.
 
 Lemma meaning_items_app a b : meaning_items (a ++ b) = meaning_items a ++ meaning_items b.
@@ -225,10 +225,11 @@ Proof.
 Qed.
 
 Theorem block_agree b : wf_block b = true -> Forall OptAgree.item_ok (b_items b) ->
+  Forall item_ic_ok (b_items b) ->
   (forall k ksp vsp f tsp cm tr, In (IKV k ksp (VFlow vsp f tsp cm) tr) (b_items b) -> bare_spec f) ->
   options_to_items (print_block b) = Ok (meaning_block b).
 Proof.
-  intros Hwf Hok Hbare. unfold wf_block in Hwf.
+  intros Hwf Hok Hic Hbare. unfold wf_block in Hwf.
   apply andb_true_iff in Hwf as [Hwf Hfin]. apply andb_true_iff in Hwf as [Hwf Hadj].
   unfold options_to_items, tokenize. rewrite meaning_block_items.
   set (s := new_stream (print_block b)).
@@ -241,7 +242,7 @@ Proof.
       - apply wf_blanks.
       - reflexivity. }
     assert (HF : fin_ok [0]) by (exists 0, []; split; [reflexivity | left; reflexivity]).
-    destruct (tokenize_f_spec [0] [] 0 HF fin_spec_nul (length (b_items b)) (b_items b) (le_n _) (fuel_of s) s _ Hwf Hadj Hok Hinv)
+    destruct (tokenize_f_spec [0] [] 0 HF fin_spec_nul (length (b_items b)) (b_items b) (le_n _) (fuel_of s) s _ Hwf Hadj Hok Hic Hinv)
       as (toks & Ht & Hs).
     { unfold fuel_of. destruct Hinv as [Hr _]. rewrite Hr, !app_length.
       pose proof (print_items_length _ Hwf). lia. }
@@ -252,6 +253,7 @@ Proof.
     rewrite forallb_app in Hwf. apply andb_true_iff in Hwf as [Hwfi Hwfl].
     cbn [forallb] in Hwfl. rewrite andb_true_r in Hwfl.
     apply Forall_app in Hok as [Hoki Hokl]. inversion Hokl as [|? ? Hokl' _]; subst.
+    apply Forall_app in Hic as [Hici _].
     destruct last as [n t tr|k ksp v tr]; [discriminate|].
     assert (Htr : tr = []) by (destruct v, tr; cbn [last_ok] in Hlast; congruence). subst tr.
     cbn [OptAgree.item_ok] in Hokl'. destruct Hokl' as [Hks _].
@@ -270,7 +272,7 @@ Proof.
         replace CHARS_END with [0] by reflexivity. unfold FIN. rewrite <- !app_assoc. reflexivity.
       - apply wf_blanks.
       - reflexivity. }
-    destruct (tokenize_f_spec FIN _ 1 HF HFS (length init) init (le_n _) (fuel_of s) s _ Hwfi (wf_adj_init _ _ Hadj) Hoki Hinv)
+    destruct (tokenize_f_spec FIN _ 1 HF HFS (length init) init (le_n _) (fuel_of s) s _ Hwfi (wf_adj_init _ _ Hadj) Hoki Hici Hinv)
       as (toks & Ht & Hs).
     { unfold fuel_of. destruct Hinv as [Hr _]. rewrite Hr, !app_length.
       pose proof (print_items_length _ Hwfi). unfold FIN. rewrite app_length. cbn [length]. lia. }
